@@ -440,7 +440,69 @@ def correspond(ctx):
             if len(pred) != len(e) or not np.allclose(pred, e, rtol=1e-12, atol=1e-12):
                 dis.append(Disagreement('c19.model', 'model:fill', '_fill_skips differs from the Lean model', dict(meta, line=ln[:60]), False))
     kernels_correspond(ctx, rng, dis)
+    history_cases(ctx, rng, dis)
     return dis
+
+
+def run_history(x, y, hist):
+    """the calls of `hist` on ONE long-lived fitter; each must give what a fresh fitter gives with conserve_memory=True.
+    Returns None or (step index, what differs)."""
+    from pybaselines import Baseline
+    shared = Baseline(x)
+    for k, h in enumerate(hist):
+        kw = {a: v for a, v in h.items() if a != 'conserve_memory'}
+        outs = []
+        for fit, cm in ((shared, h['conserve_memory']), (Baseline(x), True)):
+            try:
+                with np.errstate(all='ignore'):
+                    b, p = fit.loess(y, conserve_memory=cm, return_coef=True, **kw)
+                outs.append(('ok', b, p))
+            except Exception as e:      # noqa: BLE001
+                outs.append(('exc', type(e).__name__, None))
+        (s0, b0, p0), (s1, b1, p1) = outs
+        if s0 != s1 or (s0 == 'exc' and b0 != b1):
+            return k, f'outcome {s0 if s0 == "ok" else b0} on the re-used fitter, {s1 if s1 == "ok" else b1} on a fresh one'
+        if s0 == 'exc':
+            continue
+        for key, a, bb in (('baseline', b0, b1), ('weights', p0['weights'], p1['weights']), ('coef', p0['coef'], p1['coef']),
+                           ('tol_history', p0['tol_history'], p1['tol_history'])):
+            if np.shape(a) != np.shape(bb) or not np.allclose(a, bb, rtol=1e-9, atol=1e-9, equal_nan=True):
+                return k, f'{key} differs'
+    return None
+
+
+def history_cases(ctx, rng, dis):
+    """the memory strategy must not matter on a RE-USED fitter either: histories of loess calls on one object in which delta,
+    total_points, poly_order, the iteration budget and the strategy change from call to call (and sometimes do not)"""
+    for _ in range(40 if ctx.thorough else 10):
+        n = int(rng.choice([12, 23, 40, 61]))
+        kind = ['uniform', 'random', 'clustered'][int(rng.integers(0, 3))]
+        x = x_of(rng, n, kind)
+        y = np.round((0.02 * (x - x.mean()) ** 2 + 3 * np.exp(-0.5 * ((x - x[n // 2]) / (0.05 * (x[-1] - x[0]) + 1e-9)) ** 2) + rng.normal(0, 0.2, n)) * 64) / 64
+        span = float(x[-1] - x[0])
+        tps = [int(v) for v in rng.choice(np.arange(5, max(6, n // 2 + 1)), 2)]
+        hist = []
+        for k in range(int(rng.integers(4, 9))):
+            hist.append({'total_points': tps[int(rng.integers(0, 2))] if rng.random() < 0.8 else int(rng.integers(5, n + 1)),
+                         'poly_order': int(rng.choice([1, 2])) if rng.random() < 0.8 else 0,
+                         'delta': float(rng.choice([0.0, 0.0, 0.02 * span, 0.1 * span, 0.35 * span])),
+                         'max_iter': int(rng.choice([0, 1, 3])), 'tol': 1e-3,
+                         'conserve_memory': bool(rng.random() < 0.35)})
+        ctx.case(('history', n, kind, tuple(tuple(sorted(h.items())) for h in hist)), nontrivial=True)
+        ctx.count('history:calls', len(hist))
+        ctx.count('history:strategy-changes', sum(1 for a, b in zip(hist, hist[1:]) if a['conserve_memory'] != b['conserve_memory']))
+        ctx.count('history:delta-changes-same-size', sum(1 for a, b in zip(hist, hist[1:]) if a['delta'] != b['delta'] and a['total_points'] == b['total_points']))
+        bad = run_history(x, y, hist)
+        if bad:
+            # shrink: drop calls from the front / keep the failing prefix only
+            # (every candidate is re-run: a defect that reads uninitialised memory need not fail twice in the same way)
+            for cand in [hist[:bad[0] + 1]] + [hist[j:bad[0] + 1] for j in range(1, bad[0] + 1)]:
+                again = run_history(x, y, cand)
+                if again:
+                    hist, bad = cand, again
+            dis.append(Disagreement('c19.history', 'strategy:history', f'loess on a re-used fitter (call {bad[0] + 1} of {len(hist)}, conserve_memory='
+                                    f'{hist[bad[0]]["conserve_memory"]}) differs from a fresh fitter with conserve_memory=True: {bad[1]}; calls: {hist}',
+                                    {'check': 'history', 'x': x.tolist(), 'y': y.tolist(), 'history': hist}, True))
 
 
 def check_selection(x, n, tp, delta, w, f, s):
@@ -477,6 +539,9 @@ def replay(ctx, data):
         except Exception as e:
             return f'{type(e).__name__}: {e}'
     x, y = np.array(r['x']), np.array(r['y'])
+    if r.get('check') == 'history':
+        bad = run_history(x, y, r['history'])
+        return f'call {bad[0] + 1}: {bad[1]}' if bad else None
     n = len(x)
     tab = K.kernel_table()
     det_fits = tab['_determine_fits'][1].py_func
